@@ -352,3 +352,130 @@ where
         Poll::Pending
     }
 }
+
+/// Verification hooks: thin public wrappers, no logic of their own.
+#[cfg(eigerco_lumina_verif)]
+#[allow(missing_docs)]
+pub mod verif_hooks {
+    use std::sync::Arc;
+    use std::task::{Context, Poll};
+
+    use celestia_types::eds::{EdsId, ExtendedDataSquare};
+    use celestia_types::hash::Hash;
+    use celestia_types::namespace_data::{NamespaceData, NamespaceDataId};
+    use celestia_types::row::{Row, RowId};
+    use celestia_types::sample::{Sample, SampleId};
+    use celestia_types::{AppVersion, DataAvailabilityHeader};
+    use libp2p::PeerId;
+
+    use super::Event;
+    use super::codec::{RequestCodec, ResponseCodec};
+    use super::pool_tracker::{EdsNotification, PoolTracker};
+    use crate::store::Store;
+
+    #[derive(Debug, Clone, PartialEq, Eq)]
+    pub enum VEvent {
+        SchedulePendingRequests,
+        AddPeers(Vec<PeerId>),
+        BlockPeers(Vec<PeerId>),
+    }
+
+    pub struct VPoolTracker<S>(PoolTracker<S>);
+
+    impl<S: Store + 'static> VPoolTracker<S> {
+        pub fn new(store: Arc<S>) -> Self {
+            VPoolTracker(PoolTracker::new(store))
+        }
+
+        pub fn add_peer_for_hash(&mut self, peer_id: PeerId, data_hash: Hash, height: u64) {
+            self.0.add_peer_for_hash(peer_id, data_hash, height)
+        }
+
+        pub fn get_pool(&self, height: u64) -> Result<Vec<PeerId>, String> {
+            self.0
+                .get_pool(height)
+                .map(|peers| peers.copied().collect())
+                .map_err(|e| e.to_string())
+        }
+
+        pub fn remove_peer(&mut self, peer_id: &PeerId) {
+            self.0.remove_peer(peer_id)
+        }
+
+        pub fn poll(&mut self, cx: &mut Context<'_>) -> Poll<Option<VEvent>> {
+            self.0.poll(cx).map(|ev| {
+                ev.map(|ev| match ev {
+                    Event::SchedulePendingRequests => VEvent::SchedulePendingRequests,
+                    Event::AddPeers(peers) => VEvent::AddPeers(peers),
+                    Event::BlockPeers(peers) => VEvent::BlockPeers(peers),
+                })
+            })
+        }
+    }
+
+    /// `EdsNotification::deserialize_and_validate`; `Ok` carries `(height, data_hash)`.
+    pub fn decode_eds_notification(data: &[u8]) -> Result<(u64, Hash), String> {
+        EdsNotification::deserialize_and_validate(data)
+            .map(|n| (n.height, n.data_hash))
+            .map_err(|e| e.to_string())
+    }
+
+    macro_rules! codec_fns {
+        ($encode_req:ident, $decode_req:ident, $encode_resp:ident, $decode_resp:ident, $id:ty, $resp:ty) => {
+            pub fn $encode_req(id: &$id) -> Vec<u8> {
+                RequestCodec::encode(id)
+            }
+
+            pub fn $decode_req(raw: &[u8]) -> Result<$id, String> {
+                <$id as RequestCodec>::decode(raw).map_err(|e| e.to_string())
+            }
+
+            pub fn $encode_resp(resp: &$resp) -> Vec<u8> {
+                ResponseCodec::encode(resp)
+            }
+
+            pub fn $decode_resp(
+                raw: &[u8],
+                req: &$id,
+                dah: &DataAvailabilityHeader,
+                app_version: AppVersion,
+            ) -> Result<$resp, String> {
+                <$resp as ResponseCodec>::decode_and_verify(raw, req, dah, app_version)
+                    .map_err(|e| e.to_string())
+            }
+        };
+    }
+
+    codec_fns!(
+        encode_row_request,
+        decode_row_request,
+        encode_row_response,
+        decode_and_verify_row,
+        RowId,
+        Row
+    );
+    codec_fns!(
+        encode_sample_request,
+        decode_sample_request,
+        encode_sample_response,
+        decode_and_verify_sample,
+        SampleId,
+        Sample
+    );
+    codec_fns!(
+        encode_eds_request,
+        decode_eds_request,
+        encode_eds_response,
+        decode_and_verify_eds,
+        EdsId,
+        ExtendedDataSquare
+    );
+    codec_fns!(
+        encode_namespace_data_request,
+        decode_namespace_data_request,
+        encode_namespace_data_response,
+        decode_and_verify_namespace_data,
+        NamespaceDataId,
+        NamespaceData
+    );
+}
